@@ -7,13 +7,14 @@ def run(ctx):
     ctx.add_trusted('Kani 0.68 / CBMC 6.11 (T1); spec functions amp / rescale (kani/common/spec.rs)')
     ctx.add_assumption('rectifier side condition of the property: the negated signed amplitude is representable (to_signed(s) != MIN)')
     ctx.add_assumption('envelope follower: decided bit-precisely by Kani on f32 mono frames with dyadic inputs (k/64) and ANY pair of '
-                       'gains in [0,1) read through the guarded hook Detector::verif_gains; the value exp(-1/frames) of a non-zero time '
+                       'gains in [0,1) (thorough tier) and on 2-channel frames with gains in {0, 1/4} x {1/2, 3/4} (per-channel choice; quick tier),'
+                       ' gains read through the guarded hook Detector::verif_gains; the value exp(-1/frames) of a non-zero time '
                        'is libm powf and is NOT verified (only: 0 frames => gain 0); monotone convergence for constant input follows '
                        'from the between-ness clause and is not separately proved')
     ctx.notes.append('full_wave / positive_half_wave / negative_half_wave and the three Rectifier types for all 14 formats over the '
                      'full sample domain, on the bare-sample frame and per channel on a 2-channel frame (C03 proves map for every N)')
     ctx.extra['exhaustive'] = True
     run_kani(ctx, 'peak', harness=['c19_'], harness_timeout='8m')
-    env = ['c19_zero_time', 'c19_between', 'c19_set_times', 'c19_gain_mapping'] + (['c19_t_'] if ctx.tier == 'thorough' else [])
+    env = ['c19_zero_time', 'c19_between', 'c19_set_times', 'c19_gain_mapping', 'c19_per_channel_gain'] + (['c19_t_'] if ctx.tier == 'thorough' else [])
     run_kani(ctx, 'envelope', harness=env, rustflags='--cfg rustaudio_dasp_verif', harness_timeout='20m',
              soft_timeout=(ctx.tier == 'thorough'))
